@@ -124,6 +124,35 @@ def valids : List Expr → Bool
   | e :: es => valid e && valids es
 end
 
+/-! ### the two clauses of `valid`, separately (what remains false of the live emitter is exactly these) -/
+
+mutual
+/-- no empty criteria list, no kind matcher without kinds -/
+def listsNonEmpty : Expr → Bool
+  | .kinds _ ks _ => !ks.isEmpty
+  | .neg e => listsNonEmpty e
+  | .paren e => listsNonEmpty e
+  | .join _ es => !es.isEmpty && listsNonEmptyAll es
+  | _ => true
+def listsNonEmptyAll : List Expr → Bool
+  | [] => true
+  | e :: es => listsNonEmpty e && listsNonEmptyAll es
+end
+
+mutual
+/-- every integer literal has magnitude ≤ 2^63-1 (and decimals are canonical, a representation invariant) -/
+def literalsInRange : Expr → Bool
+  | .cmp l _ r => l.ok && r.ok
+  | .isNull l _ => l.ok
+  | .neg e => literalsInRange e
+  | .paren e => literalsInRange e
+  | .join _ es => literalsInRangeAll es
+  | _ => true
+def literalsInRangeAll : List Expr → Bool
+  | [] => true
+  | e :: es => literalsInRange e && literalsInRangeAll es
+end
+
 /-! ### the F8 shapes -/
 
 def Lit.integralFloat : Lit → Bool
